@@ -64,9 +64,15 @@ STD_METHOD_NAMES = ['Introspect', 'Ping', 'GetManagedObjects']
 
 
 def intro_events():
-    """SAX events of introspection._intro (the text of the standard interfaces), parsed like the translator does"""
+    """SAX events of the standard-interface blocks: read off the document the code generates for an exported
+    object without interfaces (no dependence on how introspection.py stores that text)"""
     from txdbus import introspection
-    return sax_events('<wrapper>' + introspection._intro + '</wrapper>')[1:-1]
+
+    class NoIfaces:
+        def getInterfaces(self):
+            return []
+
+    return sax_events(introspection.generateIntrospectionXML('/probe', {'/probe': NoIfaces()}))[1:-1]
 
 
 def refresh_std():
